@@ -546,7 +546,7 @@ theorem pinv_handle (s : Sys) (self : Cid) (e : Env) (hL : SlotsInv s) (hi : Pau
         · exact hs
         · exact Or.inr (by simp)
         · exact pinv_upd none s self _ (fun _ hk _ _ => by simp at hk) hi
-      · exact hi
+      · exact pinv_upd none s self _ (fun _ _ _ _ => rfl) hi
     · repeat' split
       all_goals first
         | exact hi
